@@ -6,20 +6,26 @@
 (*   ZeroInterval : |xend - x0| < 1e-15  -> the requested times within     *)
 (*                  1e-12 of x0 (or [x0]), each with y0; all counters 0;   *)
 (*                  Success; a constant continuous solution if dense       *)
-(*   EmptyState   : y0 empty -> t = t_eval or [x0, xend], empty states     *)
+(*   EmptyState   : y0 empty -> t = t_eval or [x0, xend], empty states; if  *)
+(*                  dense, one (empty) segment over [x0, xend] (repair     *)
+(*                  56c8554: it was the constant solution at x0, which     *)
+(*                  does not cover the reported xend)                      *)
 (*   Dispatch     : first_step is handed to the output handler only when   *)
 (*                  it does not exceed the interval (repair c5b5f88); the  *)
 (*                  continuous solution is built from the stored step      *)
 (*                  segments, or - when no step was accepted - is the      *)
 (*                  constant one at x0 (repair c290538)                    *)
+(*   RK4          : the fixed step is first_step with the sign of the      *)
+(*                  interval (repair c44329b), else a hundredth of the     *)
+(*                  interval, and never longer than max_step (bd7c67f)     *)
 (* Requested times are abstract: "at" (within 1e-12 of x0) or "off".       *)
 (***************************************************************************)
 EXTENDS Integers, Sequences, FiniteSets, TLC
 
 CONSTANTS MaxT
 
-VARIABLES zero, n0, hasT, teval, dense, fs, nacc, pc, out
-vars == <<zero, n0, hasT, teval, dense, fs, nacc, pc, out>>
+VARIABLES zero, n0, hasT, teval, dense, fs, nacc, pc, out, rk4, fsSign, ms
+vars == <<zero, n0, hasT, teval, dense, fs, nacc, pc, out, rk4, fsSign, ms>>
 
 Init == /\ zero \in BOOLEAN                  \* xend = x0 (to 1e-15)
         /\ n0 \in BOOLEAN                    \* empty state vector
@@ -29,6 +35,9 @@ Init == /\ zero \in BOOLEAN                  \* xend = x0 (to 1e-15)
         /\ dense \in BOOLEAN
         /\ fs \in {"none", "inside", "beyond"}    \* first_step relative to the interval
         /\ nacc \in {"none", "some"}               \* oracle: did the stepper accept a step before it returned
+        /\ rk4 \in BOOLEAN                  \* method = RK4 (fixed step chosen by the front end)
+        /\ fsSign \in {"interval", "opposite"}   \* sign of a given first_step relative to xend - x0
+        /\ ms \in {"none", "below", "above"}     \* max_step relative to the step RK4 would otherwise take
         /\ pc = "call"
         /\ out = [kind |-> "none"]
 
@@ -42,10 +51,13 @@ Call ==
                     counters |-> 0, status |-> "Success", cont |-> IF dense THEN "constant" ELSE "none", handlerFs |-> FALSE]
               ELSE IF n0
               THEN [kind |-> "empty", t |-> IF hasT THEN teval ELSE <<"at", "off">>,
-                    counters |-> 0, status |-> "Success", cont |-> IF dense THEN "constant" ELSE "none", handlerFs |-> FALSE]
+                    counters |-> 0, status |-> "Success", cont |-> IF dense THEN "span" ELSE "none", handlerFs |-> FALSE]
               ELSE [kind |-> "solve", t |-> <<>>, counters |-> -1, status |-> "stepper", cont |-> IF ~dense THEN "none" ELSE IF nacc = "none" THEN "constant" ELSE "segments",
-                    handlerFs |-> (fs = "inside")]
-    /\ UNCHANGED <<zero, n0, hasT, teval, dense, fs, nacc>>
+                    handlerFs |-> (fs = "inside"),
+                    \* RK4's fixed step: [sign relative to the interval, length relative to max_step]
+                    step |-> IF rk4 THEN [sign |-> "interval", len |-> IF ms = "below" THEN "max_step" ELSE "own"]
+                                    ELSE [sign |-> "stepper", len |-> "stepper"]]
+    /\ UNCHANGED <<zero, n0, hasT, teval, dense, fs, nacc, rk4, fsSign, ms>>
 
 Next == Call \/ (pc = "ret" /\ UNCHANGED vars)
 Spec == Init /\ [][Next]_vars
@@ -59,6 +71,15 @@ ZeroLength == (pc = "ret" /\ zero) =>
 DenseIffRequested == pc = "ret" => ((out.cont # "none") <=> dense)
 \* C06: the continuous solution covers the stored samples: segments only when there are steps behind them
 CoversStored == (pc = "ret" /\ dense /\ out.kind = "solve") => (out.cont = "segments" <=> nacc = "some")
+\* C06 (repairs 56c8554): every time reported by a shortcut is covered by the continuous solution: the constant one covers
+\* times at x0 only, the empty-state run reports xend too
+CoversReported == (pc = "ret" /\ dense /\ out.kind \in {"zero", "empty"}) =>
+                     (out.cont = "constant" => \A j \in 1..Len(out.t) : out.t[j] = "at")
+\* C11 (repairs c44329b, bd7c67f): RK4 steps in the direction of the interval whatever the sign of first_step, and never
+\* with a step longer than max_step
+Rk4Step == (pc = "ret" /\ out.kind = "solve" /\ rk4) =>
+              /\ out.step.sign = "interval"
+              /\ (ms = "below" => out.step.len = "max_step")
 \* C03 (repair c5b5f88): the handler never waits for a first output beyond xend
 NoUnreachableFirstOutput == (pc = "ret" /\ out.kind = "solve" /\ fs = "beyond") => ~out.handlerFs
 =============================================================================
